@@ -113,20 +113,24 @@ def collect():
         except RuntimeError:
             rej.append((ids[0], ids[1], True))
     data["mov_cc_rejected"] = rej
+    # every sample is run with the register tracked as the ELECTRON (virtual id 0) and as a carbon (id 1):
+    # the model `nvRot` takes no id, so each (gate, n, d) simply appears once per role
     rots = []
     for mn in G.ROTS:
-        for (n, d) in ROT_SAMPLES:
-            seq = G.expand(mn, [1], n, d)
-            rots.append((mn, n, d, [(m, [0], a, b) for m, _, a, b in seq]))
+        for vid in (0, 1):
+            for (n, d) in ROT_SAMPLES:
+                seq = G.expand(mn, [vid], n, d)
+                rots.append((mn, n, d, [(m, [0], a, b) for m, _, a, b in seq]))
     data["rot_sim"] = rots
     hw = []
     for mn in G.ROTS:
-        for (n, d) in HW_SAMPLES:
-            try:
-                seq = G.expand(mn, [1], n, d, hardware=True)
-                hw.append((mn, n, d, [(m, [0], a, b) for m, _, a, b in seq]))
-            except ValueError:
-                hw.append((mn, n, d, None))
+        for vid in (0, 1):
+            for (n, d) in HW_SAMPLES:
+                try:
+                    seq = G.expand(mn, [vid], n, d, hardware=True)
+                    hw.append((mn, n, d, [(m, [0], a, b) for m, _, a, b in seq]))
+                except ValueError:
+                    hw.append((mn, n, d, None))
     data["rot_hw"] = hw
     return data
 
